@@ -146,6 +146,10 @@ enum Op {
     Fin(u8, u64),
     /// construct the owner with the k-th constructor (only valid as the very first operation)
     Ctor(u8),
+    /// WHERE drops / polls run from now on (only valid before the first real operation): environment
+    /// (`ENV_NAMES`) and which operations it applies to (0 owner-ending ops, 1 guard drops incl. free flush /
+    /// force-flush guards, 2 `wait_for_data` polls, 3 all of them)
+    Env(u8, u8),
     Dfg,
     Ddg,
     Open(usize, bool, u64), // slot, wait?, initial value (lazy slots)
@@ -170,6 +174,7 @@ impl Op {
             Op::Dref => "dref".into(),
             Op::Fin(k, v) => format!("fin:{k}:{v}"),
             Op::Ctor(k) => format!("ctor:{k}"),
+            Op::Env(e, w) => format!("env:{e}:{w}"),
             Op::Dfg => "dfg".into(),
             Op::Ddg => "ddg".into(),
             Op::Open(i, w, v) => format!("open:{i}:{}:{v}", if w { "w" } else { "d" }),
@@ -195,6 +200,7 @@ impl Op {
             ("dref", 1) => Op::Dref,
             ("fin", 3) => Op::Fin(n(1)? as u8, n(2)?),
             ("ctor", 2) => Op::Ctor(n(1)? as u8),
+            ("env", 3) => Op::Env(n(1)? as u8, n(2)? as u8),
             ("dfg", 1) => Op::Dfg,
             ("ddg", 1) => Op::Ddg,
             ("open", 4) => Op::Open(n(1)? as usize, f[2] == "w", n(3)?),
@@ -239,6 +245,7 @@ impl Shadow {
             Op::Hit(_) | Op::Dref => own || self.handles > 0,
             Op::Fin(k, _) => own && (k as usize) < N_FINISHERS,
             Op::Ctor(k) => !self.started && (k as usize) < N_CTORS,
+            Op::Env(e, w) => !self.started && (e as usize) < N_ENVS && w < 4,
             Op::Cl => self.handles > 0,
             Op::Dfg => self.fgs > 0,
             Op::Ddg => self.dgs > 0,
@@ -251,10 +258,10 @@ impl Shadow {
     }
     /// `open_ok`: whether an `open` returned a guard, `ready`: whether a poll returned `Ready`
     fn apply(&mut self, op: &Op, open_ok: bool, ready: bool) {
-        self.started = true;
+        self.started = !matches!(op, Op::Ctor(_) | Op::Env(..));
         match *op {
             Op::Fin(..) => self.owner = false,
-            Op::Ctor(_) => {}
+            Op::Ctor(_) | Op::Env(..) => {}
             Op::Fg => {
                 self.fgs += 1;
                 self.fg_made += 1
@@ -348,7 +355,8 @@ impl Oracle {
                 }
                 self.refs -= 1
             }
-            Op::Ctor(_) => {}
+            // the property does not depend on where a drop runs
+            Op::Ctor(_) | Op::Env(..) => {}
             Op::Dfg => self.fg_total -= 1,
             Op::Ddg => self.forced = true,
             Op::Open(i, w, v0) => {
@@ -410,6 +418,8 @@ struct World {
     dgs: Vec<Pin<Box<ForceFlushGuard>>>,
     guards: [Option<SlotGuard<Child>>; NSLOTS],
     fut: Option<(usize, WaitFut)>,
+    /// (environment, which operations run in it), see `Op::Env`
+    env: (u8, u8),
 }
 
 fn new_world(init: [u64; 2], ctor: u8) -> World {
@@ -418,10 +428,14 @@ fn new_world(init: [u64; 2], ctor: u8) -> World {
 
 /// the constructor a history asks for: its first operation, if that is a `ctor:k`
 fn ctor_of(ops: &[Op]) -> u8 {
-    match ops.first() {
-        Some(Op::Ctor(k)) if (*k as usize) < N_CTORS => *k,
-        _ => 0,
+    for op in ops {
+        match op {
+            Op::Ctor(k) if (*k as usize) < N_CTORS => return *k,
+            Op::Env(..) => continue,
+            _ => break,
+        }
     }
+    0
 }
 
 const N_CTORS: usize = 2;
@@ -506,20 +520,157 @@ fn finish_owner(o: Owner, k: u8, v: u64) {
 
 fn new_world_with(init: [u64; 2], sink: RecSink, ctor: u8) -> World {
     let owner = build_owner(init, sink.clone(), ctor);
-    World { sink, owner: Some(owner), handles: vec![], fgs: vec![], dgs: vec![], guards: [None, None, None, None], fut: None }
+    World { sink, owner: Some(owner), handles: vec![], fgs: vec![], dgs: vec![], guards: [None, None, None, None], fut: None, env: (0, 0) }
 }
 
-fn poll_once(f: &mut WaitFut) -> Option<Option<u64>> {
-    let mut cx = Context::from_waker(Waker::noop());
-    match f.as_mut().poll(&mut cx) {
+struct WakeFlag(std::sync::atomic::AtomicBool);
+
+impl std::task::Wake for WakeFlag {
+    fn wake(self: Arc<Self>) {
+        self.0.store(true, Ordering::SeqCst)
+    }
+}
+
+/// one poll; the second component says whether the future woke its own waker during the poll (a cooperative
+/// yield, not an answer)
+fn poll_flag(f: &mut WaitFut) -> (Option<Option<u64>>, bool) {
+    let flag = Arc::new(WakeFlag(std::sync::atomic::AtomicBool::new(false)));
+    let waker = Waker::from(flag.clone());
+    let mut cx = Context::from_waker(&waker);
+    let r = match f.as_mut().poll(&mut cx) {
         Poll::Ready(v) => Some(v),
         Poll::Pending => None,
+    };
+    (r, flag.0.load(Ordering::SeqCst))
+}
+
+/// One poll of `wait_for_data` in environment `env`.  With the cooperative budget used up every tokio resource
+/// answers `Pending` and asks (through the runtime's deferred-wake list) to be polled again: that is a yield, not the
+/// answer "no data yet".  The harness then does what the runtime does — polls again with a fresh budget — and
+/// reports that answer.  (Whether the wake-up was requested by then is counted, not judged: C13 is not about wake-ups.)
+fn poll_once_in(env: u8, f: WaitFut) -> (Option<Option<u64>>, WaitFut) {
+    let (r, woke, mut f) = run_in_env(env, move || {
+        let mut f = f;
+        let (r, woke) = poll_flag(&mut f);
+        (r, woke, f)
+    });
+    if r.is_none() && (env == 2 || env == 5) {
+        YIELDS_REPOLLED.fetch_add(1, Ordering::Relaxed);
+        if woke {
+            YIELDS_WOKEN_AT_ONCE.fetch_add(1, Ordering::Relaxed);
+        }
+        let (r2, _) = poll_flag(&mut f);
+        return (r2, f);
+    }
+    (r, f)
+}
+
+static YIELDS_REPOLLED: AtomicU64 = AtomicU64::new(0);
+static YIELDS_WOKEN_AT_ONCE: AtomicU64 = AtomicU64::new(0);
+
+// ------------------------------------------------------------------------------------------------
+// WHERE a drop / poll runs.  The property does not mention it, so nothing else changes.
+
+const N_ENVS: usize = 6;
+const ENV_NAMES: [&str; N_ENVS] = [
+    "plain thread",
+    "tokio current-thread task, fresh coop budget",
+    "tokio current-thread task, coop budget exhausted",
+    "tokio current-thread task, unconstrained",
+    "tokio multi-thread worker, fresh coop budget",
+    "tokio multi-thread worker, coop budget exhausted",
+];
+
+struct AssertSend<T>(T);
+// Safety: the harness thread blocks until the task that received the value has finished; nothing is shared.
+unsafe impl<T> Send for AssertSend<T> {}
+impl<T> AssertSend<T> {
+    fn into_inner(self) -> T {
+        self.0
+    }
+}
+
+thread_local! {
+    static CT: tokio::runtime::Runtime = tokio::runtime::Builder::new_current_thread().build().expect("current-thread runtime");
+}
+static MT: std::sync::OnceLock<tokio::runtime::Runtime> = std::sync::OnceLock::new();
+static BUDGET_EXHAUSTIONS: AtomicU64 = AtomicU64::new(0);
+
+/// Use up the task's cooperative budget the way a busy handler does: receive ready messages without yielding.
+/// Returns without awaiting anything once the budget is gone.
+async fn exhaust_budget() {
+    let (tx, mut rx) = tokio::sync::mpsc::unbounded_channel::<u32>();
+    for i in 0..2_000 {
+        tx.send(i).unwrap();
+    }
+    let mut n = 0u32;
+    while tokio::task::coop::has_budget_remaining() {
+        rx.recv().await.unwrap();
+        n += 1;
+        assert!(n < 1_999, "the coop budget never ran out");
+    }
+    BUDGET_EXHAUSTIONS.fetch_add(1, Ordering::Relaxed);
+}
+
+async fn drain_some() {
+    let (tx, mut rx) = tokio::sync::mpsc::unbounded_channel::<u32>();
+    for i in 0..300 {
+        tx.send(i).unwrap();
+    }
+    for _ in 0..300 {
+        rx.recv().await.unwrap();
+    }
+}
+
+/// Runs `f` in environment `env` (index into `ENV_NAMES`) and returns its result; a panic inside is re-raised.
+fn run_in_env<R: 'static>(env: u8, f: impl FnOnce() -> R + 'static) -> R {
+    if env == 0 {
+        return f();
+    }
+    let f = AssertSend(f);
+    let task = async move {
+        match env {
+            2 | 5 => {
+                exhaust_budget().await;
+                // no await between here and `f`
+                AssertSend(f.into_inner()())
+            }
+            3 => {
+                tokio::task::unconstrained(async move {
+                    drain_some().await;
+                    AssertSend(f.into_inner()())
+                })
+                .await
+            }
+            _ => AssertSend(f.into_inner()()),
+        }
+    };
+    let r = if env >= 4 {
+        let rt = MT.get_or_init(|| tokio::runtime::Builder::new_multi_thread().worker_threads(2).build().expect("multi-thread runtime"));
+        rt.block_on(async move { tokio::spawn(task).await })
+    } else {
+        CT.with(|rt| rt.block_on(async move { tokio::spawn(task).await }))
+    };
+    match r {
+        Ok(v) => v.into_inner(),
+        Err(e) => std::panic::resume_unwind(e.into_panic()),
     }
 }
 
 impl World {
     /// executes one (valid) op; returns (result token, open_ok, ready)
+    fn env_for(&self, op: &Op) -> u8 {
+        let class = match op {
+            Op::Dref | Op::Fin(..) => 0,
+            Op::Gd(_) | Op::Dfg | Op::Ddg => 1,
+            Op::Wb(_) | Op::Wp => 2,
+            _ => return 0,
+        };
+        if self.env.1 == 3 || self.env.1 == class { self.env.0 } else { 0 }
+    }
+
     fn exec(&mut self, op: &Op) -> (String, bool, bool) {
+        let env = self.env_for(op);
         let mut res = "-".to_string();
         let mut open_ok = false;
         let mut ready = false;
@@ -535,17 +686,28 @@ impl World {
             Op::Hnd => self.handles.push(self.owner.take().unwrap().handle()),
             Op::Cl => self.handles.push(self.handles.last().unwrap().clone()),
             Op::Dref => {
-                if let Some(o) = self.owner.take() {
-                    drop(o)
-                } else {
-                    drop(self.handles.pop())
-                }
+                let o = self.owner.take();
+                let h = if o.is_none() { self.handles.pop() } else { None };
+                run_in_env(env, move || {
+                    drop(o);
+                    drop(h)
+                })
             }
-            Op::Fin(k, v) => finish_owner(self.owner.take().unwrap(), k, v),
+            Op::Fin(k, v) => {
+                let o = self.owner.take().unwrap();
+                run_in_env(env, move || finish_owner(o, k, v))
+            }
             // the constructor was chosen when the world was built (`ctor_of`)
             Op::Ctor(_) => {}
-            Op::Dfg => drop(self.fgs.pop()),
-            Op::Ddg => drop(self.dgs.pop()),
+            Op::Env(e, w) => self.env = (e, w),
+            Op::Dfg => {
+                let g = self.fgs.pop();
+                run_in_env(env, move || drop(g))
+            }
+            Op::Ddg => {
+                let g = self.dgs.pop();
+                run_in_env(env, move || drop(g))
+            }
             Op::Open(i, w, v0) => {
                 let mode = if w { OnParentDrop::Wait(self.fgs.pop().unwrap()) } else { OnParentDrop::Discard };
                 let o = self.owner.as_mut().unwrap();
@@ -571,11 +733,12 @@ impl World {
                 // The future mutably borrows the owner; `Shadow::valid` refuses every operation that touches
                 // the owner while it is alive, which is exactly what the borrow checker enforces on clients.
                 // (The entry lives in the `Arc` allocation, so moving `self.owner` does not move it.)
-                let mut f: WaitFut = Box::pin(async move {
+                let f: WaitFut = Box::pin(async move {
                     let s: &mut Slot<Child> = unsafe { &mut *slot };
                     s.wait_for_data().await.as_ref().map(|c| closed_val(c))
                 });
-                match poll_once(&mut f) {
+                let (r, f) = poll_once_in(env, f);
+                match r {
                     Some(v) => {
                         ready = true;
                         res = format!("R{}", v.map(|x| x.to_string()).unwrap_or("n".into()));
@@ -587,19 +750,25 @@ impl World {
                 }
             }
             Op::Wp => {
-                let (_, f) = self.fut.as_mut().unwrap();
-                match poll_once(f) {
+                let (i, f) = self.fut.take().unwrap();
+                let (r, f) = poll_once_in(env, f);
+                match r {
                     Some(v) => {
                         ready = true;
                         res = format!("R{}", v.map(|x| x.to_string()).unwrap_or("n".into()));
-                        self.fut = None;
                     }
-                    None => res = "P".into(),
+                    None => {
+                        res = "P".into();
+                        self.fut = Some((i, f));
+                    }
                 }
             }
             Op::Wc => self.fut = None,
             Op::Gm(i, v) => self.guards[i].as_mut().unwrap().val = v,
-            Op::Gd(i) => drop(self.guards[i].take()),
+            Op::Gd(i) => {
+                let g = self.guards[i].take();
+                run_in_env(env, move || drop(g))
+            }
             Op::Gc(i) => res = if self.guards[i].as_ref().unwrap().parent_is_closed() { "t".into() } else { "f".into() },
         }
         (res, open_ok, ready)
@@ -861,6 +1030,12 @@ fn random_case_opts(rng: &mut Rng, slots: bool, tail: bool, max_len: u64) -> Cas
     let mut g = GenState::new();
     let mut ops = vec![];
     if rng.chance(1, 2) {
+        // where drops / polls run: a tokio task (fresh / exhausted coop budget / unconstrained / multi-thread worker)
+        let e = Op::Env(rng.range(1, N_ENVS as u64 - 1) as u8, rng.below(4) as u8);
+        g.apply(&e);
+        ops.push(e);
+    }
+    if rng.chance(1, 2) {
         let c = Op::Ctor(rng.below(N_CTORS as u64) as u8);
         g.apply(&c);
         ops.push(c);
@@ -974,6 +1149,7 @@ fn process(cases: &[Case], args: &Args, slots_checked: bool) -> ShardOut {
             bumps.push(match op {
                 Op::Fin(k, _) => format!("op:fin:{k}"),
                 Op::Ctor(k) => format!("op:ctor:{k}"),
+                Op::Env(e, w) => format!("env:{} / applies to {}", ENV_NAMES[*e as usize], ["owner-ending ops", "guard drops", "wait_for_data polls", "all drops and polls"][*w as usize]),
                 _ => format!("op:{}", op.enc().split(':').next().unwrap()),
             });
         }
@@ -1031,6 +1207,7 @@ fn process(cases: &[Case], args: &Args, slots_checked: bool) -> ShardOut {
 // Stage 2: T-trace
 
 static PERTURB: AtomicU64 = AtomicU64::new(0);
+static TRACE_ENVS: [AtomicU64; N_ENVS] = [AtomicU64::new(0), AtomicU64::new(0), AtomicU64::new(0), AtomicU64::new(0), AtomicU64::new(0), AtomicU64::new(0)];
 static POINT_HITS: [AtomicU64; 4] = [AtomicU64::new(0), AtomicU64::new(0), AtomicU64::new(0), AtomicU64::new(0)];
 
 fn jitter() {
@@ -1158,10 +1335,13 @@ fn run_trace(c: &Case, pseed: u64) -> TraceOut {
         }
     }
     let n = racers.len();
+    // where each racer's drop runs: half of the traces stay on plain threads, in the others every racer draws
+    let envs: Vec<u8> = if prng.chance(1, 2) { vec![0; n] } else { (0..n).map(|_| prng.below(N_ENVS as u64) as u8).collect() };
     let barrier = Arc::new(std::sync::Barrier::new(n.max(1)));
     let panics = Arc::new(Mutex::new(Vec::<String>::new()));
     std::thread::scope(|sc| {
-        for r in racers {
+        for (r, env) in racers.into_iter().zip(envs.iter().copied()) {
+            TRACE_ENVS[env as usize].fetch_add(1, Ordering::Relaxed);
             let barrier = barrier.clone();
             let hist = hist.clone();
             let panics = panics.clone();
@@ -1175,22 +1355,22 @@ fn run_trace(c: &Case, pseed: u64) -> TraceOut {
                             log(format!("mut:{v}"));
                         }
                         log("bR".into());
-                        finish_owner(o, k, v);
+                        run_in_env(env, move || finish_owner(o, k, v));
                         log("eR".into());
                     }
                     Racer::Ref(x) => {
                         log("bR".into());
-                        drop(x);
+                        run_in_env(env, move || drop(x));
                         log("eR".into());
                     }
                     Racer::Fg(x) => {
                         log("bF".into());
-                        drop(x);
+                        run_in_env(env, move || drop(x));
                         log("eF".into());
                     }
                     Racer::Dg(x) => {
                         log("bD".into());
-                        drop(x);
+                        run_in_env(env, move || drop(x));
                         log("eD".into());
                     }
                     Racer::Sg(i, mut g, m) => {
@@ -1200,7 +1380,7 @@ fn run_trace(c: &Case, pseed: u64) -> TraceOut {
                             jitter();
                         }
                         log(format!("bG:{i}"));
-                        drop(g);
+                        run_in_env(env, move || drop(g));
                         log(format!("eG:{i}"));
                     }
                 });
@@ -1394,6 +1574,12 @@ fn trace_stage(rep: &mut Report, args: &Args, rng: &mut Rng, c13: bool, replay: 
         requests.push(format!("trace {NSLOTS} | {}", t.hist.join(" ")));
         verdicts.push((line, v));
     }
+    for (i, h) in TRACE_ENVS.iter().enumerate() {
+        rep.bump_by(&format!("trace:racer drops run in: {}", ENV_NAMES[i]), h.load(Ordering::Relaxed));
+    }
+    rep.bump_by("coop budget exhaustions performed (all stages so far)", BUDGET_EXHAUSTIONS.load(Ordering::Relaxed));
+    rep.bump_by("wait_for_data polls that yielded on an exhausted budget and were polled again", YIELDS_REPOLLED.load(Ordering::Relaxed));
+    rep.bump_by("… of which had woken their waker before the poll returned", YIELDS_WOKEN_AT_ONCE.load(Ordering::Relaxed));
     for (i, h) in POINT_HITS.iter().enumerate() {
         rep.bump_by(&format!("trace:perturbation point {} hits", 10 + i), h.load(Ordering::Relaxed));
     }
@@ -1493,6 +1679,17 @@ fn main() {
             match Case::decode(&l) {
                 Some(c) => cases.push(c),
                 None => rep.notes.push(format!("corpus line not understood: {l}")),
+            }
+        }
+        // every corpus history again with its drops / polls in every non-plain environment
+        let plain: Vec<Case> = cases.iter().filter(|c| !c.ops.iter().any(|o| matches!(o, Op::Env(..)))).cloned().collect();
+        for c in &plain {
+            for e in 1..N_ENVS as u8 {
+                for w in 0..4u8 {
+                    let mut ops = vec![Op::Env(e, w)];
+                    ops.extend(c.ops.iter().cloned());
+                    cases.push(Case { init: c.init, ops });
+                }
             }
         }
         rep.bump_by("corpus cases", cases.len() as u64);
